@@ -37,13 +37,14 @@ Definition sp_garbage (x : sp) (e : ev) (b : obs) : vec :=
 
 Definition sp_event (x : sp) (e : ev) (b : obs) : sp :=
   let g := sp_garbage x e b in
-  if x_closed x then {| x_up := x_up x; x_closed := true; sp_prev := o_lost b; sp_garb := g |} else
+  let pv := if o_owner b =? 4294967295 then sp_prev x else o_lost b in
+  if x_closed x then {| x_up := x_up x; x_closed := true; sp_prev := pv; sp_garb := g |} else
   match e with
-  | EUp => {| x_up := true; x_closed := false; sp_prev := o_lost b; sp_garb := g |}
-  | EDown => {| x_up := false; x_closed := false; sp_prev := o_lost b; sp_garb := g |}
-  | EClose => {| x_up := false; x_closed := true; sp_prev := o_lost b; sp_garb := g |}
-  | EFatalRead => {| x_up := false; x_closed := true; sp_prev := o_lost b; sp_garb := g |}
-  | _ => {| x_up := x_up x; x_closed := x_closed x; sp_prev := o_lost b; sp_garb := g |}
+  | EUp => {| x_up := true; x_closed := false; sp_prev := pv; sp_garb := g |}
+  | EDown => {| x_up := false; x_closed := false; sp_prev := pv; sp_garb := g |}
+  | EClose => {| x_up := false; x_closed := true; sp_prev := pv; sp_garb := g |}
+  | EFatalRead => {| x_up := false; x_closed := true; sp_prev := pv; sp_garb := g |}
+  | _ => {| x_up := x_up x; x_closed := x_closed x; sp_prev := pv; sp_garb := g |}
   end.
 
 Definition expected (c : cfg) (x : sp) (b : obs) : vec :=
@@ -63,11 +64,20 @@ Definition vdiff (a b : vec) : list N :=
    comparison with the model on marked steps *)
 Definition unobserved (b : obs) : bool := o_owner b =? 4294967295.
 
+(* verdict 8: what rests in the autodraining queues of stopped peers may only grow by a declared straggler injection
+   (EStraggle); if it grows in any other step, a producer that had passed its isRunning test parked a container in a
+   stopped peer's queue instead of releasing it *)
+Definition vleb (a b : vec) : bool :=
+  (inC a <=? inC b) && (outC a <=? outC b) && (buf a <=? buf b) && (inE a <=? inE b) && (outE a <=? outE b).
+Definition declared (e : ev) : vec :=
+  match e with EStraggle _ kin kout => vstraggle kin kout | _ => vzero end.
+
 Definition sp_step (c : cfg) (x : sp) (eb : ev * obs) : sp * list N :=
   let x1 := sp_event x (fst eb) (snd eb) in
   (x1, if unobserved (snd eb) then [] else
        vdiff (expected c x1 (snd eb)) (o_counts (snd eb)) ++ (if o_owner (snd eb) =? 0 then [] else [6]) ++
-       (if negb (x_up x1) && negb (x_closed x1) && negb (o_selems (snd eb) =? 0) then [7] else [])).
+       (if negb (x_up x1) && negb (x_closed x1) && negb (o_selems (snd eb) =? 0) then [7] else []) ++
+       (if vleb (o_lost (snd eb)) (vadd (sp_prev x) (declared (fst eb))) then [] else [8])).
 
 Definition verdicts (c : cfg) (tr : list (ev * obs)) : list (list N) := outs (sp_step c) sp_init tr.
 Definition holdsb (c : cfg) (tr : list (ev * obs)) : bool :=
